@@ -133,9 +133,10 @@ func ParseLikeValidURL(v string) (UrlFact, *url.URL) {
 	return f, u
 }
 
+// hostOf: link hardening treats an href as external when net/url finds a host in it, or cannot parse it at all.
 func hostOf(v string) bool {
 	u, err := url.Parse(v)
-	return err == nil && u.Host != ""
+	return err != nil || u.Host != ""
 }
 
 var vendorPrefixes = []string{"-webkit-", "-moz-", "-ms-", "-o-", "mso-", "-xv-", "-atsc-", "-wap-", "-khtml-", "prince-", "-ah-", "-hp-", "-ro-", "-rim-", "-tc-"}
